@@ -307,6 +307,10 @@ var $newType = (size, kind, string, named, pkg, exported, constructor) => {
                             if (f.typ === $jsObjectPtr) {
                                 v = new $jsObjectPtr(v);
                             }
+                            if (!ptrRecv && f.typ.kind === $kindStruct) {
+                                /* A value-receiver method works on a copy of the embedded struct. */
+                                v = $clone(v, f.typ);
+                            }
                             if (v.$val === undefined) {
                                 v = new f.typ(v);
                             }
